@@ -69,6 +69,10 @@ CHECKS["C12"] = dict(engine="wire", cat="exploration",
    text="histories over {full roster, push add/update/remove/multi from 10 sender classes, presence of 5 types from 3 resources of 7 JIDs, connection loss followed by a resumed / new-after-failed-resume / sm-less session}: exhaustive words of length <= 2 (quick) / 3 (thorough) over a 15-letter alphabet plus random histories up to length 60; after every step (XEP-0198 or ping fence) getRosterBareJids/getRosterEntry/getResources are compared with a two-map reference model and result IQs per push are counted on the server transcript",
    note="pushes from other own resources, the bare domain and case variants follow the observed acknowledgement; the view while disconnected is not judged",
    tech="runtime monitoring: executable reference model stepped alongside a real client session (state comparison at fenced quiescent points), under ASan/UBSan")
+CHECKS["C07"] = dict(engine="wire", cat="exploration",
+   text="histories over {request(6 addressee classes, optionally re-entering the client from the continuation), reply(result/error/malformed/request-with-same-id, outstanding or unknown id, 10 sender classes, once/twice), resumable connection loss, disconnect, reconnect (resumed/new)} with up to 4 requests outstanding: exhaustive words of length <= 3 (quick) / 4 (thorough) over a 16-letter alphabet plus 20000 / 10^6 random words up to length 30, each closed by a non-resumable end; each task's continuation count, value and completion segment are compared with a request model (accept = addressee or absent from; case variants and own domain not judged) under ASan/UBSan",
+   note="a stanza without from counts as coming from the user's own server; requests issued while disconnected are not modelled; the bundled managers' request APIs are only covered through raw IQs",
+   tech="runtime monitoring: exactly-once counters + executable request model over recorded call/return histories of a real client session, sanitizers for re-entrancy")
 REASON_TODO = "check not built yet in this session (planned, see DESIGN.md §2)"
 
 def main():
